@@ -221,10 +221,11 @@ fn show_dt(d: &DataType) -> String {
     }
 }
 
-/// long pad texts are abbreviated `'x*<n>'` when they consist of n > 8 letters x (keeps observation lines short)
+/// long pad texts are abbreviated `'<c>*<n>'` when they consist of n > 8 copies of one letter (keeps observation lines short)
 fn abbreviate(s: String) -> String {
-    if s.len() > 10 && s.starts_with("'x") && s.ends_with('\'') && s[1..s.len() - 1].chars().all(|c| c == 'x') {
-        format!("'x*{}'", s.len() - 2)
+    let b = s.as_bytes();
+    if b.len() > 10 && b[0] == b'\'' && b[b.len() - 1] == b'\'' && b[1..b.len() - 1].iter().all(|c| *c == b[1]) {
+        format!("'{}*{}'", b[1] as char, b.len() - 2)
     } else {
         s
     }
@@ -712,10 +713,13 @@ enum Shape {
     /// readers scan the very tables that the writers write (each table still has one writer); some tables of one page,
     /// some preloaded to several pages so that scans run next to splits
     SameTableReaders,
-    /// begin/commit stress: 2 session writers (short transactions, some rolled back), 2 autocommit writers that commit
-    /// rapidly on tables of their own, 2–3 readers that keep selecting the session writers' tables — every read must be
+    /// begin/commit stress: 2 session writers (6–8 short transactions, some rolled back), 2 autocommit writers that commit
+    /// rapidly on tables of their own, 3–4 readers that keep selecting the session writers' tables — every read must be
     /// free of uncommitted and rolled-back rows and consistent with one order of the commits
     SnapshotRace,
+    /// scans next to splits: one writer appends 100–160 rows (multi-row inserts) to a table preloaded to several pages, so
+    /// that its right-most leaves split and are redistributed, while 3 readers keep scanning that table
+    ScanVsSplit,
     /// several writers insert into / delete from the SAME table (region `same_table_writers`)
     SameTableWriters,
     /// as Deep with a cache of 12–20 pages, below the working set (region `small_cache`)
@@ -731,9 +735,9 @@ fn gen_snapshot_race(rng: &mut Rng) -> Case {
     for (t, tab) in [(1usize, "s1"), (2, "s2")] {
         let mut l = Vec::new();
         let mut k = 0;
-        for _ in 0..rng.range(4, 6) {
+        for _ in 0..rng.range(6, 8) {
             l.push(format!("t{} begin", t));
-            for _ in 0..rng.range(1, 2) {
+            for _ in 0..1 {
                 k += 1;
                 l.push(format!("t{} ins {} {} {} 's'", t, tab, 100 * t + k, k));
             }
@@ -742,11 +746,11 @@ fn gen_snapshot_race(rng: &mut Rng) -> Case {
         per_thread.push(l);
     }
     for (t, tab) in [(3usize, "a1"), (4, "a2")] {
-        per_thread.push((0..rng.range(10, 14)).map(|i| format!("t{} db ins {} {} {} 'w'", t, tab, 100 * t as i64 + i, i)).collect());
+        per_thread.push((0..rng.range(16, 20)).map(|i| format!("t{} db ins {} {} {} 'w'", t, tab, 100 * t as i64 + i, i)).collect());
     }
-    let nreaders = rng.range(2, 3) as usize;
+    let nreaders = rng.range(3, 4) as usize;
     for t in 5..5 + nreaders {
-        per_thread.push((0..rng.range(10, 14)).map(|_| format!("t{} db sel {}", t, if rng.chance(1, 2) { "s1" } else { "s2" })).collect());
+        per_thread.push((0..rng.range(16, 20)).map(|_| format!("t{} db sel {}", t, if rng.chance(1, 2) { "s1" } else { "s2" })).collect());
     }
     let nthreads = per_thread.len();
     let ops = merge(rng, per_thread);
@@ -758,9 +762,53 @@ fn gen_snapshot_race(rng: &mut Rng) -> Case {
     c
 }
 
+fn gen_scan_vs_split(rng: &mut Rng) -> Case {
+    let mut per_thread: Vec<Vec<String>> = Vec::new();
+    let pad = "y".repeat(40);
+    let mut k = 100;
+    let mut w = Vec::new();
+    for _ in 0..rng.range(6, 8) {
+        let rows: Vec<String> = (0..rng.range(16, 20))
+            .map(|_| {
+                k += 1;
+                format!("{} {} '{}'", k, rng.range(0, 99), pad)
+            })
+            .collect();
+        w.push(format!("t1 db ins w1 {}", rows.join(" , ")));
+    }
+    per_thread.push(w);
+    for t in 2..=4 {
+        let mut l = Vec::new();
+        for _ in 0..rng.range(8, 12) {
+            if rng.chance(1, 4) {
+                l.push(format!("t{} begin", t));
+                l.push(format!("t{} sel w1 where k lt 1000", t));
+                l.push(format!("t{} sel w1 where k lt 1000", t));
+                l.push(format!("t{} commit", t));
+            } else {
+                l.push(format!("t{} db sel w1 where k lt 1000", t));
+            }
+        }
+        per_thread.push(l);
+    }
+    let ops = merge(rng, per_thread);
+    let line = format!(
+        "threads tab=w1{} fill=w1:{}:{} cache=10000 pool=8 pace={} | {}",
+        TAB3,
+        rng.range(100, 160),
+        rng.range(60, 100),
+        rng.below(1_000_000_000),
+        ops.join(" ; ")
+    );
+    Case::new(line, &["nt", "shape:ScanVsSplit", "threads4", "deep_tree", "session", "auto_ins", "auto_sel", "scan_vs_write", "clean"])
+}
+
 fn gen_case(rng: &mut Rng, shape: Shape, small_cache: bool) -> Case {
     if shape == Shape::SnapshotRace {
         return gen_snapshot_race(rng);
+    }
+    if shape == Shape::ScanVsSplit {
+        return gen_scan_vs_split(rng);
     }
     let mut g = Gen { rng };
     let (nw, nr) = match shape {
@@ -770,7 +818,7 @@ fn gen_case(rng: &mut Rng, shape: Shape, small_cache: bool) -> Case {
         Shape::Deep => (g.rng.range(2, 3) as usize, g.rng.range(1, 2) as usize),
         Shape::SameTableReaders => (g.rng.range(1, 3) as usize, g.rng.range(1, 3) as usize),
         Shape::SameTableWriters => (g.rng.range(2, 4) as usize, g.rng.range(0, 1) as usize),
-        Shape::SnapshotRace => unreachable!(),
+        Shape::SnapshotRace | Shape::ScanVsSplit => unreachable!(),
         Shape::SmallCache => (g.rng.range(2, 3) as usize, g.rng.range(1, 2) as usize),
         Shape::FlushConcurrent | Shape::SubQ => (g.rng.range(2, 3) as usize, 1usize),
     };
@@ -903,16 +951,24 @@ impl Engine for ThreadsEngine {
     fn gen_cases(&self, rng: &mut Rng, tier: Tier) -> Vec<Case> {
         let mut out = Vec::new();
         let quick = tier == Tier::Quick;
-        let clean = [Shape::AutoDistinct, Shape::WritersReaders, Shape::Sessions, Shape::Deep, Shape::SameTableReaders, Shape::SnapshotRace];
+        let clean = [
+            Shape::AutoDistinct,
+            Shape::WritersReaders,
+            Shape::Sessions,
+            Shape::Deep,
+            Shape::SameTableReaders,
+            Shape::SnapshotRace,
+            Shape::ScanVsSplit,
+        ];
         // cases of the four known-finding regions are spread among the clean ones (a hang costs its supervisor slot 10 s)
         let regions = [Shape::SameTableWriters, Shape::SmallCache, Shape::FlushConcurrent, Shape::SubQ, Shape::SameTableWriters];
-        let rounds = if quick { 40 } else { 240 };
+        let rounds = if quick { 40 } else { 600 };
         for r in 0..rounds {
             for s in clean {
                 let small = s == Shape::Deep && rng.chance(1, 2);
                 out.push(gen_case(rng, s, small));
             }
-            // quick: 14 region cases in 254 (6 %); thorough: 160 in 1600 (10 %)
+            // quick: 14 region cases in 254 (6 %); thorough: 400 in 4000 (10 %)
             let every = if quick { 3 } else { 3 };
             if r % every == 0 {
                 let s = regions[(r / every) % regions.len()];
